@@ -48,7 +48,8 @@ def gen_dag(rng, ncomp=None):
                     ks = tuple(min(k_, 1) for k_ in ks)
                 terms.append((rng.choice([-2, -1, 1, 2, 3]), ks))
             polys[o] = terms
-        comps.append({'name': f'c{k}', 'ins': ins, 'outs': outs, 'polys': polys})
+        comps.append({'name': f'c{k}', 'ins': ins, 'outs': outs, 'polys': polys,
+                      'unpacked': (len(ins) + len(outs) >= 3) and rng.random() < 0.5})
         avail.extend(outs)
     used = [v for v in exo if any(v in c['ins'] for c in comps)]
     return {'exo': used, 'comps': comps}
@@ -71,6 +72,26 @@ def make_model(c):
     return model
 
 
+def make_model_unpacked(c):
+    """the same polynomial model with the documented unpacked signature `f(a, b) -> (c, d)`: arguments and return values are
+    positional, in the order in which the component declares its inputs / outputs"""
+    ins, outs = c['ins'], c['outs']
+    dict_model = make_model(c)
+
+    def call(*args):
+        r = dict_model(dict(zip(ins, args)))
+        return tuple(r[o] for o in outs) if len(outs) > 1 else r[outs[0]]
+    # amisc inspects the signature: the parameters must carry the input names, in the declared order
+    import linecache
+    ns = {'_call': call}
+    # … and the return statement the output names (amisc also inspects it)
+    src = f"def model({', '.join(ins)}):\n    {', '.join(outs)} = _call({', '.join(ins)})\n    return {', '.join(outs)}\n"
+    fname = f"<c07_unpacked_{c['name']}_{abs(hash(src)) % 10 ** 8}>"
+    linecache.cache[fname] = (len(src), None, src.splitlines(True), fname)     # so that inspect.getsource works
+    exec(compile(src, fname, 'exec'), ns)
+    return ns['model']
+
+
 def build_exact_system(dag, order, norms):
     vars_ = {}
 
@@ -81,8 +102,12 @@ def build_exact_system(dag, order, norms):
     comps = []
     for i in order:
         c = dag['comps'][i]
-        comps.append(Component(make_model(c), inputs=[var(v) for v in c['ins']], outputs=[var(v) for v in c['outs']],
-                               name=c['name'], vectorized=True))
+        if c.get('unpacked'):
+            comps.append(Component(make_model_unpacked(c), inputs=[var(v) for v in c['ins']], outputs=[var(v) for v in c['outs']],
+                                   name=c['name'], vectorized=True, call_unpacked=True, ret_unpacked=True))
+        else:
+            comps.append(Component(make_model(c), inputs=[var(v) for v in c['ins']], outputs=[var(v) for v in c['outs']],
+                                   name=c['name'], vectorized=True))
     return System(*comps, name='sysA')
 
 
@@ -228,6 +253,72 @@ def run_mutations(ctx, res, dag):
                                  'expected': np.asarray(exp[o]).tolist()})
     res.hit('edited-system-' + '+'.join(sorted({o[0] for o in ops})) if ops else 'edited-system-none')
     res.case(('edits', str(dag), str(ops)), bool(ops), {'dag': dag, 'edits': ops})
+
+
+def run_assembly(ctx, res, dag):
+    """the same components — each declaring its OWN variable objects, the producer of a variable richly (domain, normalisation), its
+    consumers by bare name — assembled in different ways: listed in the constructor (two orders), inserted one by one, inserted as
+    a list. Every assembly must predict what the constructor-built system predicts, through every prediction path"""
+    rng = ctx.rng
+    n = len(dag['comps'])
+    norms = {v: rng.choice([None, 'linear(0.5, 1)', 'linear(2, -1)']) for v in dag['exo']}
+    for c in dag['comps']:
+        for o in c['outs']:
+            norms[o] = rng.choice([None, None, 'linear(0.25, 2)'])
+
+    def parts():
+        declared, comps = set(), []
+        for c in dag['comps']:
+            def var(nm, c=c):
+                rich = (nm in c['outs']) or (nm.startswith('x') and nm not in declared)
+                if rich:
+                    declared.add(nm)
+                    return Variable(nm, domain=(-4.0, 4.0) if nm.startswith('x') else (-1e6, 1e6), norm=norms.get(nm))
+                return Variable(nm)
+            outs = [var(v) for v in c['outs']]
+            ins = [var(v) for v in c['ins']]
+            comps.append(Component(make_model(c), inputs=ins, outputs=outs, name=c['name'], vectorized=True))
+        return comps
+
+    def assemblies():
+        cs = parts(); yield 'constructor(reversed)', System(*reversed(cs), name='s1')
+        cs = parts(); order = rng.sample(range(n), n)
+        s_ = System(cs[order[0]], name='s2')
+        for i in order[1:]:
+            s_.insert_components(cs[i])
+        yield f'inserted one by one {order}', s_
+        cs = parts(); order = rng.sample(range(n), n); k = rng.randint(1, n - 1) if n > 1 else 1
+        s_ = System(*[cs[i] for i in order[:k]], name='s3')
+        if order[k:]:
+            s_.insert_components([cs[i] for i in order[k:]])
+        yield f'constructor {order[:k]} + insert list {order[k:]}', s_
+    try:
+        ref_sys = System(*parts(), name='s0')
+        xs = {v: np.array([float(rng.choice([-3, -2, -1, 1, 2, 3, 0.5, -1.5])), 0.75]) for v in dag['exo']}
+        xn = {k: ref_sys.inputs()[k].normalize(v) for k, v in xs.items()}
+        calls = [('default path, normalised inputs', lambda s_: s_.predict(dict(xn))),
+                 ('default path, raw inputs', lambda s_: s_.predict(dict(xs), normalized_inputs=False)),
+                 ("use_model='best', raw inputs", lambda s_: s_.predict(dict(xs), use_model='best', normalized_inputs=False))]
+        refs = [call(ref_sys) for _, call in calls]
+    except Exception as e:  # noqa: BLE001
+        res.failures.append({'kind': 'predict-raised', 'input': {'dag': dag, 'assembly': 'constructor'}, 'observed': repr(e)[:300]})
+        return
+    for tag, s_ in assemblies():
+        for (cname, call), ref in zip(calls, refs):
+            info = {'dag': dag, 'norms': norms, 'assembly': tag, 'call': cname}
+            try:
+                got = call(s_)
+            except Exception as e:  # noqa: BLE001
+                res.failures.append({'kind': 'assembled-system-raises-where-the-constructor-built-system-predicts', 'input': info,
+                                     'observed': repr(e)[:300]})
+                continue
+            for o in ref:
+                if o not in got or not np.allclose(np.asarray(got[o]), np.asarray(ref[o]), rtol=1e-12, atol=1e-12, equal_nan=True):
+                    res.failures.append({'kind': 'prediction-depends-on-how-the-system-was-assembled', 'input': {**info, 'output': o},
+                                         'observed': None if o not in got else np.asarray(got[o]).tolist(),
+                                         'expected': np.asarray(ref[o]).tolist()})
+        res.hit('assembly-' + tag.split(' ')[0])
+    res.case(('assembly', str(dag)), n >= 3, {'dag': dag, 'norms': norms})
 
 
 def topo_order(system):
@@ -391,6 +482,7 @@ def run(ctx: core.Ctx, only=None) -> core.Result:
                 if it.get('edits', True):
                     for _ in range(2):
                         run_mutations(ctx, res, it['dag'])
+                    run_assembly(ctx, res, it['dag'])
             else:
                 run_surrogate(ctx, res, it['seed'])
     out = core.try_driver(lines, res, 'Amisc.predictFF')
